@@ -2327,7 +2327,11 @@ public:
       bool skipThen = dynamic_cast<SkipStatement*>(stmt.getThenStmt().get());
       bool skipElse = dynamic_cast<SkipStatement*>(stmt.getElseStmt().get());
       if (skipThen && skipElse) {
-        // Do nothing.
+        // No branches to choose between, but calls in the condition must
+        // still be made.
+        if (cb.containsCall(stmt.getCondition())) {
+          cb.genExpr(stmt.getCondition(), currentScope);
+        }
       } else if (skipElse) {
         // No else branch.
         auto endLabel = cb.getLabel();
